@@ -1,6 +1,7 @@
 CONSTANTS Objects = {"p1", "t1", "t2"}
 Addrs = {"A", "B"}
-ById = TRUE
+KeyBy = "address"
+TruthTest = FALSE
 MaxSteps = 7
 SPECIFICATION Spec
 INVARIANT ActionsOfGivenObject
